@@ -275,7 +275,7 @@ func runC16(r *rt.Run) {
 	runWorkers(r, bin, "c16worker", 300*time.Second)
 	// free-running race pass
 	raceBin := filepath.Join(scratch, "verif-race")
-	cmd := exec.Command("go", "build", "-race", "-o", raceBin, "./cmd/verif")
+	cmd := exec.Command("go", rt.GoBuild("-race", "-o", raceBin, "./cmd/verif")...)
 	cmd.Dir = filepath.Join(rt.Root, "mc")
 	if out, err := cmd.CombinedOutput(); err != nil {
 		r.HarnessError("race build failed: " + err.Error() + "\n" + string(out))
